@@ -27,7 +27,7 @@ GEN = os.path.join(VERIF, "lean", "VsgModel", "Generated")
 CACHE = os.path.join(VERIF, ".cache")
 REPO = os.environ.get("VSG_REPO", "/repo")
 
-KIND = {"code": 0, "ws": 1, "cr": 2, "blank": 3, "comment": 4, "dcBegin": 5, "dcText": 6, "dcEnd": 7, "pragma": 8, "preproc": 9, "bof": 10}
+KIND = {"codeCI": 11, "code": 0, "ws": 1, "cr": 2, "blank": 3, "comment": 4, "dcBegin": 5, "dcText": 6, "dcEnd": 7, "pragma": 8, "preproc": 9, "bof": 10}
 
 
 def lean_str(s):
@@ -116,6 +116,10 @@ def class_kind(cls):
         return "preproc"
     if issubclass(cls, parser.comment):
         return "comment"
+    from vsg.token import bit_string_literal
+
+    if issubclass(cls, bit_string_literal.bit_value_string):
+        return "codeCI"
     return "code"
 
 
